@@ -49,9 +49,9 @@ JsDeliver(s, scalar) ==
 \* ---- numbers --------------------------------------------------------------
 NumLookup(nt, text) ==
   LET S == {j \in 1..Len(nt) : nt[j].t = text} IN
-  IF S = {} THEN [t |-> <<>>, f64 |-> <<>>, f32 |-> <<>>, i |-> <<>>, s |-> <<>>, missing |-> TRUE]
+  IF S = {} THEN [t |-> <<>>, f64 |-> <<>>, f32 |-> <<>>, i |-> <<>>, s |-> <<>>, x64 |-> 0, x32 |-> 0, missing |-> TRUE]
   ELSE LET e == nt[CHOOSE j \in S : TRUE] IN
-       [t |-> e.t, f64 |-> e.f64, f32 |-> e.f32, i |-> e.i, s |-> e.s, missing |-> FALSE]
+       [t |-> e.t, f64 |-> e.f64, f32 |-> e.f32, i |-> e.i, s |-> e.s, x64 |-> e.x64, x32 |-> e.x32, missing |-> FALSE]
 InfBits(neg) == <<IF neg THEN 255 ELSE 127, 240, 0, 0, 0, 0, 0, 0>>
 NumTerminal(nph) == nph \in {"zero", "int", "frac", "exp"}
 
@@ -61,7 +61,12 @@ JsNumDone(s) ==
       digs == IF neg THEN SubSeq(text, 2, Len(text)) ELSE text
       r == [s EXCEPT !.tk = "", !.acc = <<>>] IN
   IF s.isint /\ CFromDec(neg, DigitsOf(digs)) # <<>>
-  THEN JsDeliver(JsEmit(r, EvInt(CFromDec(neg, DigitsOf(digs)))), TRUE)
+  THEN \* an integer event additionally carries the float bit patterns that equal it exactly
+       \* (fields i, s), so that a float written as "1" can be recognised (rule f2i)
+       LET e == NumLookup(s.nt, text) IN
+       JsDeliver(JsEmit(r, [EvInt(CFromDec(neg, DigitsOf(digs)))
+                            EXCEPT !.i = IF e.x64 = 1 THEN e.f64 ELSE <<>>,
+                                   !.s = IF e.x32 = 1 THEN e.f32 ELSE <<>>]), TRUE)
   ELSE LET e == NumLookup(s.nt, text) IN
        IF e.missing THEN JsStuck(s, "infra", "numtab")
        ELSE IF e.f64 = <<>>
